@@ -239,7 +239,8 @@ void c06a_run(const c06a_case *c, c06a_out *out);
 #define C06_MAX_CMDS 24
 enum { /* commands */
 	E_ADD = 1, E_ENABLE, E_DISABLE, E_DEL, E_PEER_WRITE, E_DRAIN, E_PEER_CLOSE, E_SLEEP, E_PEER_SHUT_WR /* half close: shutdown(SHUT_WR) */,
-	E_REOPEN /* both ends are closed without a delete (the kernel drops the registration) and a fresh socket pair takes the same descriptor number; the user record keeps its stale state */
+	E_REOPEN /* both ends are closed without a delete (the kernel drops the registration) and a fresh socket pair takes the same descriptor number; the user record keeps its stale state */,
+	E_ENABLE1, E_DISABLE1 /* tpt_ev_enable_args1(): the call has no flags argument, the registration keeps the flags it has (read/write channels only) */
 };
 typedef struct {
 	uint8_t cmd, ch;
@@ -426,6 +427,41 @@ typedef struct {
 } c16f_out;
 void c16f_run(const c16f_scn *scn, c16f_out *out);
 uint8_t c16f_file_pattern(uint64_t pos);
+
+/* phase scripts on one receive task: silent partial progress, restart with a new window, pause on a timeout / data report, re-enable */
+#define C16S_MAX_STEPS 12
+#define C16S_LOG 160
+enum { S_WRITE = 1 /* a bytes from the peer */, S_WAIT_TIMEOUT, S_RESTART /* owner: tp_task_stop + new window (a = offset, b = length) + tp_task_start */, S_ENABLE /* owner: tp_task_enable(1) if paused */, S_SLEEP /* a ms */ };
+typedef struct { uint8_t op; uint16_t a, b; } c16s_step;
+typedef struct {
+	uint8_t ev_flags;	/* 0 persistent, 2 dispatch */
+	uint8_t after_every_read;
+	uint8_t on_timeout;	/* answer to ETIMEDOUT: 0 CONTINUE, 1 NONE (the task stays paused until tp_task_enable(1) / a restart) */
+	uint8_t pause_data_k;	/* dispatch only: the k-th data report is answered with NONE (0 never) */
+	uint16_t timeout_ms, buf_size, win_off, win_len;
+	uint8_t nsteps;
+	c16s_step steps[C16S_MAX_STEPS];
+	tp_plans plans;
+} c16s_scn;
+typedef struct {
+	uint8_t type;		/* 1 callback, 2 peer write, 3 restart, 4 enable, 5 the owner destroys the task */
+	uint8_t pauses;		/* callback: answered NONE without stopping (the task is paused from here on) */
+	uint8_t mismatch;	/* callback / restart: bytes moved into the window since the last report are not the next bytes of the stream */
+	uint8_t skipped;	/* enable: the task was not paused, nothing called */
+	int32_t error, rc;
+	uint32_t eof;
+	uint64_t transfered;	/* callback argument */
+	uint64_t adv;		/* callback / restart: cursor advance since the later of the previous report and the (re)start */
+	uint64_t n;		/* write: bytes; enable: FIONREAD of the task's socket just before the call */
+	uint64_t offset, tr_size;	/* cursors seen by the callback */
+} c16s_rec;
+typedef struct {
+	int setup_rc, start_rc, hang, never_reported, guards_bad, log_overflow, foreign_thread;
+	uint32_t nlog;
+	c16s_rec log[C16S_LOG];
+	tp_res_stats res;
+} c16s_out;
+void c16s_run(const c16s_scn *scn, c16s_out *out);
 
 /* ======================= C16 conn (tp_conn.c, drivers/C16_conn.cpp) -- begin =======================
  * Second unit of C16: datagram receiver, accept, connect and connect_ex tasks. */
